@@ -132,10 +132,9 @@ vars == <<cfg, k, pc, toPredict, filt, at, est, iod, pend, fsq, lastObs, mode, w
 
 Filter0 == [kind |-> "seq", flags |-> {}, time |-> 0, det |-> FALSE, orig |-> None, src |-> "orig"]
 NoJob   == [filt |-> Filter0, iod |-> None, pend |-> <<>>, mode |-> "nominal", observed |-> FALSE,
-            detNow |-> FALSE, closedNow |-> FALSE, freshStart |-> FALSE]
+            detNow |-> FALSE, closedNow |-> FALSE, freshStart |-> FALSE, upd |-> "none"]
 
-Init ==
-  /\ cfg \in Configs /\ ValidCfg(cfg)
+InitRest ==
   /\ k = 0 /\ pc = "idle" /\ toPredict = {}
   /\ filt = [t \in Targets |-> Filter0]
   /\ at = [t \in Targets |-> 0] /\ est = [t \in Targets |-> "init"]
@@ -147,6 +146,7 @@ Init ==
   /\ db = [man |-> [t \in Targets |-> <<>>], fs |-> [t \in Targets |-> <<>>]]
   /\ obsH = [t \in Targets |-> {}] /\ detH = [t \in Targets |-> {}]
   /\ begH = [t \in Targets |-> {}] /\ iodH = [t \in Targets |-> {}]
+Init == cfg \in Configs /\ ValidCfg(cfg) /\ InitRest
 
 \* ---------------------------------------------------------------------------------------------
 \* Is the IOD machinery of the agent switched on?  Documented: by the flag of the sequential
@@ -179,7 +179,7 @@ Predict(t) ==
 \* ray.put(estimate): the job will work on a snapshot of the driver-side agent
 Snapshot(t) == [filt |-> filt[t], iod |-> iod[t], pend |-> pend[t],
                 mode |-> IF mode[t] = "detected" THEN "nominal" ELSE mode[t],   \* a detection lasts one step
-                observed |-> FALSE, detNow |-> FALSE, closedNow |-> FALSE, freshStart |-> FALSE]
+                observed |-> FALSE, detNow |-> FALSE, closedNow |-> FALSE, freshStart |-> FALSE, upd |-> "none"]
 PutEstimates ==
   /\ pc = "predict" /\ toPredict = {}
   /\ pc' = "update"
@@ -203,7 +203,7 @@ UpdateObs(t, det) ==
   /\ pc = "update" /\ stage[t] = 0 /\ W(t).filt.kind = "seq"
   /\ (det => cfg.md)
   /\ stage' = [stage EXCEPT ![t] = 1]
-  /\ wk' = [wk EXCEPT ![t].observed = TRUE, ![t].detNow = det,
+  /\ wk' = [wk EXCEPT ![t].observed = TRUE, ![t].detNow = det, ![t].upd = "seq",
                       ![t].filt.flags = SeqFlags(det), ![t].filt.det = det,
                       ![t].mode = IF det /\ @ = "nominal" THEN "detected" ELSE @]
   /\ obsH' = [obsH EXCEPT ![t] = @ \cup {k}]
@@ -215,7 +215,7 @@ UpdateObs(t, det) ==
 AdaptiveStep(t, conv) ==
   /\ pc = "update" /\ stage[t] = 0 /\ W(t).filt.kind = "mmae"
   /\ stage' = [stage EXCEPT ![t] = 1]
-  /\ wk' = [wk EXCEPT ![t].observed = TRUE,
+  /\ wk' = [wk EXCEPT ![t].observed = TRUE, ![t].upd = "mmae",
                       ![t].filt.flags = IF conv THEN (@ \ {"START"}) \cup {"CLOSE"} ELSE @]
   /\ obsH' = [obsH EXCEPT ![t] = @ \cup {k}]
   /\ detH' = [detH EXCEPT ![t] = @ \cup {k}]      \* AdaptiveFilter.maneuver_detected is constantly TRUE
